@@ -152,5 +152,20 @@ CHECKS["C15"].update(category="proof",
          "spec reads identically through the real reader and the model (DAQmx at scaler-value level).",
     technique="Lean 4 proof (codec round trips parametric in the byte order) + spec encoder + pairwise oracle")
 
+CHECKS["C08"].update(category="proof",
+    text="segment_self_consistent / checkWritten_ok: for every program the writer model accepts (any sessions, segments, objects; decidable WritableProgram), the strict "
+         "structural parser — written from the format description — accepts the emitted bytes: lead-in offsets = byte lengths written, metadata parses to exactly "
+         "raw-data-offset bytes with every length field matching what follows (20 / 28), data length = what types and counts imply incl. string offset tables, root first, "
+         "groups before their channels (parents_first, no well-formedness needed), index file = data file minus raw data with TDSh tags (index_is_twin). The writer model "
+         "equals the real TdmsWriter byte for byte on generated programs, and the strict parser is also run on the real writer's bytes.",
+    technique="Lean 4 proof (printer/strict-parser round trip, session invariant by induction) + byte-equality correspondence + strict parser as oracle")
+CHECKS["C07"].update(category="proof",
+    text="Value level: Int32/Int64/Uint64 chosen exactly by magnitude with boundaries -2^31, 2^31, 2^63 (iff-statements through the rules re-extracted from the source) and "
+         "integer property round trip; bool/float/string/typed/raw-timestamp property encodings; datetime properties decode back to the written microsecond (through C12); "
+         "exact characterisation of _infer_dtype (infer_dtype_exact: the chosen dtype holds every element iff the list is outside the signed-gap cases, which NumPy rejects). "
+         "Structure level: the writer model emits what the strict parser accepts (C08). The whole write -> read composition is not proved as one theorem; it is covered by "
+         "the byte-for-byte correspondence of the writer model with the real writer plus the real write -> real read oracle.",
+    technique="Lean 4 proof (value-level codecs, magnitude rules, _infer_dtype characterisation) + byte-equality correspondence + read-back oracle")
+
 NOTES = ("Properties move from not_applicable to checks as their model, correspondence and theorems are built; a check is claimed at `proof` only when its "
          "headline theorems are registered in lean/obligations.json. See DESIGN.md.")
